@@ -74,6 +74,14 @@ def make_block(spec, traffic=False):
             s = b"['0x41\"]"        # ... and a block that spells a complete snapshot data line is a snapshot data line to the parser
         off = int(off) % (1024 - len(s) + 1)
         b[off:off + len(s)] = s
+    if traffic:
+        # overlapping pieces can re-assemble what was just excluded: break every remaining spelling of the parser's own line formats
+        import re as _re
+        while True:
+            m = _re.search(rb"\['0x[0-9A-Fa-f]+'(?:, *'0x[0-9A-Fa-f]+')*\]", bytes(b)) or _re.search(rb"Snapshot", bytes(b))
+            if m is None:
+                break
+            b[m.end() - 1] = ord(")") if b[m.end() - 1] == ord("]") else ord("0")
     return bytes(b)
 
 
